@@ -199,8 +199,10 @@ let wm_summN (is64 : bool) (entries : (((n * n) * n) * n) list) =
     v_mean := !v_mean /. float_of_int !count;
     for i = 0 to n - 1 do
       let (m, s, _, _) = src.(i) in
-      let v = m -. !v_mean in
-      v_var := !v_var +. ((s *. s) +. (v *. v))
+      if Float.is_finite m then begin          (* second loop of SUMMARYN_BODY_TEMPLATE: non-finite children are skipped (since /repo 358343b) *)
+        let v = m -. !v_mean in
+        v_var := !v_var +. ((s *. s) +. (v *. v))
+      end
     done;
     v_var := !v_var /. float_of_int !count
   end;
